@@ -455,7 +455,7 @@ static void build_alias_ops(Ex& ex)
 static void build_ops(Ex& ex)
 {
     // ----------------------------------------------------------------- constructors
-    add_op(ex, "ctor()", "S()", both(GEN(s = S(); return "ok";)));
+    add_op(ex, "ctor()", "S()", both(GEN(Tmp<S> t; s = *t; return "ok";)));
     for (std::size_t n : CNT) for (CT c : CH)
         add_op(ex, "ctor(n,ch)", "S(" + pn(n) + "," + cn(c) + ")", both(GEN(Tmp<S> t(n, c); s = *t; return "ok";)));
     for (auto& src : SRC)
